@@ -10,6 +10,17 @@ def build_mesh(desc, tags=True):
     kind = KIND[cls_name]
     p = np.array(desc['p'], dtype=np.float64)
     t = np.array(desc['t'], dtype=np.int64)
+    # how the caller happens to hold the arrays (a function of the descriptor, so a case stays reproducible): C-ordered,
+    # Fortran-ordered (e.g. the transpose of a points-by-coordinates table), non-contiguous views, 32-bit connectivity
+    mem = (p.shape[1] + 3 * t.shape[1]) % 4
+    if mem == 1:
+        p, t = np.asfortranarray(p), np.asfortranarray(t)
+    elif mem == 2:
+        p = np.repeat(p, 2, axis=1)[:, ::2]
+        t = np.repeat(t, 2, axis=1)[:, ::2]
+    elif mem == 3:
+        t = t.astype(np.int32)
+        p = np.ascontiguousarray(p.T).T
     cls1 = getattr(skfem, CLS1[kind])
     kw = {}
     if desc.get('sort_t') is False:
